@@ -402,6 +402,7 @@ def alias_checks(ctx, S):
                 c1.dataout[0] ^= 0xFF
                 if bytes(c2.dataout) != before:
                     ctx.fail("C09:reuse.buffers_aliased", "%s: writing to one command's dataout changed another's" % name, {"cmd": name})
+    retyped_segments(ctx, S, rng)
     # facade defaults (mutable default arguments)
     dev = harness.Recorder(E.spc)
     s = harness.make_facade(dev)
@@ -437,6 +438,44 @@ def alias_checks(ctx, S):
 
 
 STRUCTURAL = ("type", "code", "length", "format", "association", "protocol", "naa", "piv", "spf", "page", "lu_id", "nul", "pad", "cat")
+
+
+def retyped_segments(ctx, S, rng):
+    """a long-lived segment descriptor dictionary holding only the keys common to all kinds is sent, given another type code
+    (of the other size class, or the same) in place, and sent again: the second command is the one a fresh copy would give"""
+    import copy
+
+    from vmon import harness
+    from vmon.spec import dataout as DO
+
+    codes = [0x00, 0x01, 0x02, 0x0B, 0x0C, 0x0D]
+    for name, spc in (("ExtendedCopy4", 4), ("ExtendedCopy5", 5)):
+        c = S.COMMANDS[name]
+        sk, dk = ("source_target_descriptor_id", "destination_target_descriptor_id") if spc == 4 else ("source_cscd_descriptor_id", "destination_cscd_descriptor_id")
+        for c1 in codes:
+            for c2 in codes:
+                for form in ("int", "name"):
+                    a, _ = DO.GEN[c.custom](rng, ("counts", 1, 1, 0))
+                    seg = {"descriptor_type_code": c1 if form == "int" else DO.SEG_NAMES[c1][0], "cat": rng.getrandbits(1), sk: rng.getrandbits(16), dk: rng.getrandbits(16)}
+                    a["_kwargs"]["segment_descriptor_list"] = [seg]
+                    ctx.case(("retyped", name, c1, c2, form), c1 != c2, sample={"cmd": name, "segment_retyped": [c1, c2]} if ctx.want_sample() else None)
+                    try:
+                        harness.construct(c, c.sets[0], a)
+                        seg["descriptor_type_code"] = c2 if form == "int" else DO.SEG_NAMES[c2][0]
+                        want = harness.construct(c, c.sets[0], copy.deepcopy({"_kwargs": {k: copy.deepcopy(v) for k, v in a["_kwargs"].items()}, **{k: v for k, v in a.items() if k != "_kwargs"}}))
+                    except Exception:  # noqa: BLE001
+                        ctx.count("retyped_segment_refused")
+                        continue
+                    # `want` was built from a deep copy of the caller's objects as they are now; the caller's own objects next
+                    try:
+                        got = harness.construct(c, c.sets[0], a)
+                    except Exception as e:  # noqa: BLE001
+                        ctx.fail("C09:reuse.raises.%s" % type(e).__name__, "%s from a re-typed reused segment dictionary raised %s" % (name, e), {"cmd": name, "codes": [c1, c2]}, exc=e)
+                        continue
+                    ctx.count("retyped_segment_reuses")
+                    if (bytes(got.cdb), bytes(got.dataout)) != (bytes(want.cdb), bytes(want.dataout)):
+                        ctx.fail("C09:reuse.stale_after_retype", "%s: a segment dictionary sent as type %02Xh, re-typed to %02Xh in place and sent again gives another command than a fresh copy of it"
+                                 % (name, c1, c2), {"cmd": name, "codes": [c1, c2], "dataout": bytes(got.dataout), "fresh": bytes(want.dataout)})
 
 
 def perturb(x, depth, min_depth, rng):
